@@ -356,7 +356,7 @@ def build(name="alloc", archetype_items=None):
         Fn(S, r"^impl<R> Slot<R>", "clone_with_new_identifier", ret="r",
            rewrites=[(r"self\.location\.map\(\|location\|\s*(unsafe \{.*?\})\)",
                       r"match self.location { Some(location) => Some(\1), None => None }",
-                      "R5c: Option::map(closure) written as the match it is defined to be")],
+                      "R5c: Option::map(closure) written as the match it is defined to be", True)],
            requires=[("pre.safety_map_has_identifier", "self.location is Some ==> identifier_map@.dom().contains(self.location->0.identifier)")],
            ensures=[("C10.slot_generation_kept", "r.generation == self.generation"),
                     ("C10.slot_location_remapped", "r.location == vx_remap(self.location, identifier_map@)")],
